@@ -348,8 +348,7 @@ def eval_case(case):
         return {"lines": [], "impl": [], "violations": [], "nontrivial": False, "stats": ["empty"],
                 "replay_case": full}
     # greedy / balanced: the plan theorems are about the step model, which is tied to the real step here
-    with steptie.tie_for(full) as tie:
-        r = scen.run_real(full, timeout_s=90)
+    r, tie_lines, tie_impl = steptie.run_with_tie(full, lambda: scen.run_real(full, timeout_s=90))
     if r.get("step_i") is None or r.get("escaped") or r.get("timeout"):
         return {"lines": [], "impl": [], "violations": [], "nontrivial": False, "stats": stats + ["no_run"],
                 "replay_case": full}
@@ -383,7 +382,7 @@ def eval_case(case):
         stats.append(cls)
         stats.append("f=%s" % m["f"])
     nontrivial = any(m["need"] >= 2 for m in mv.values())
-    return {"lines": tie.lines, "impl": tie.impl, "violations": viol, "nontrivial": nontrivial, "stats": stats,
+    return {"lines": tie_lines, "impl": tie_impl, "violations": viol, "nontrivial": nontrivial, "stats": stats,
             "replay_case": full}
 
 
